@@ -164,3 +164,12 @@ func (ex *Exec) freshFP(why string) *smt.Term {
 	}
 	return ex.fpRaw(smt.SFP, "(_ to_fp 11 53)", bits)
 }
+
+func (ex *Exec) freshBool(why string) *smt.Term {
+	ex.fpSeq++
+	v := ex.b.Var(fmt.Sprintf("%s!%d", why, ex.fpSeq), smt.SBool, nil, nil)
+	if ex.solver != nil {
+		ex.solver.Declare(v)
+	}
+	return v
+}
